@@ -14,6 +14,9 @@ cp "$D/demo.rs" sdk/tests/demo_verif.rs
 F="--features file_io,fetch_remote_manifests"
 cargo test --offline -p c2pa $F --test demo_verif > "$D/confirm_without.txt" 2>&1; r1=$?
 git apply "$D/patch.diff" || { echo "patch does not apply"; exit 2; }
+# one build for both: the lib unit tests of the touched modules and the demo (the filter matches no demo test name, so
+# the demo target is run a second time without filter below, from the same build)
+cargo test --offline -p c2pa $F --no-fail-fast --lib --test demo_verif --no-run > "$D/confirm_build_with.txt" 2>&1
 cargo test --offline -p c2pa $F --test demo_verif > "$D/confirm_with.txt" 2>&1; r2=$?
 cargo test --offline -p c2pa $F --lib -- "$@" > "$D/confirm_tests_with.txt" 2>&1; r3=$?
 git checkout -q -- . ; rm -f sdk/tests/demo_verif.rs
